@@ -29,7 +29,7 @@ inductive Ty where
   | boxed (iface : Nat)       -- `DecodeXxx(b)`: any constructor of the interface, id first
   | ctor (c : Nat) (bare : Bool)  -- `value.Decode(b)` (id checked) / `value.DecodeBare(b)`
   | vec (bareHdr : Bool) (elem : Ty)  -- `VectorHeader()` (or `Int()` for bare vectors) then elements
-  | generic                   -- `bin.Object` field (invokeWithLayer & co.): not modelled
+  | generic                   -- `bin.Object` field (invokeWithLayer & co.): the object held, boxed
   deriving DecidableEq, Repr, Inhabited
 
 structure Field where
@@ -49,6 +49,11 @@ structure Ctor where
 structure Schema where
   ctors : Array Ctor
   ifaces : Array (List Nat)
+  /-- The constructor of the object a generic (`!X`, Go `bin.Object`) field holds before `Decode`
+  is called: the generated code decodes *into* whatever object the field already holds
+  (`x.Query.Decode(b)`), `none` = nil interface.  A parameter of the decode, not part of the TL
+  schema; the same for every generic field of one request. -/
+  generic : Option Nat := none
   deriving Inhabited
 
 mutual
@@ -161,6 +166,19 @@ def encTy (S : Schema) : Ty → Val → Option Bytes
         | none => none
       | none => none
     else none
+  | .generic, .obj c fs =>
+    -- `x.Query.Encode(b)`: the boxed encoding of the object held (its type is the decode parameter)
+    if S.generic = some c then
+      match S.ctors[c]? with
+      | some ct =>
+        match encFields S [] ct.fields fs with
+        | some e =>
+          match ct.id with
+          | some id => some (putU32 id ++ e)
+          | none => none
+        | none => none
+      | none => none
+    else none
   | .vec bareHdr t, .vec xs =>
     if xs.length < 2 ^ 31 then
       match encElems S t xs with
@@ -269,7 +287,23 @@ def decTy (S : Schema) : Nat → Ty → Bytes → Res Val
       | .error e => .error e
     | .trueFlag => .error badSchema
     | .flags => .error badSchema
-    | .generic => .error badSchema
+    | .generic =>
+      -- `if x.Query == nil { return error }; x.Query.Decode(b)`: Decode of the object held
+      match S.generic with
+      | none => .error (.other "nil-generic")
+      | some c =>
+        match S.ctors[c]? with
+        | none => .error badSchema
+        | some ct =>
+          match ct.id with
+          | none => .error badSchema
+          | some id =>
+            match consumeID id b with
+            | .error e => .error e
+            | .ok (_, r) =>
+              match decFields S fuel [] ct.fields r with
+              | .ok (fs, r') => .ok (.obj c fs, r')
+              | .error e => .error e
     | .boxed i =>
       match getU32 b with
       | .error e => .error e
